@@ -292,7 +292,12 @@ func (r *Runner) setVarWithIndex(prev expand.Variable, name string, index syntax
 		r.setVar(name, prev)
 		return
 	}
-	k, _ := r.arithm(index)
+	k, ok := r.arithm(index)
+	if !ok {
+		// Like Bash, e.g. a[1/0]=x does not assign at all.
+		r.exit.code = 1
+		return
+	}
 	if k < 0 {
 		// Negative indices count from one past the maximum index.
 		if k += internal.IndexedMax(list, indexes) + 1; k < 0 {
@@ -351,7 +356,11 @@ func (r *Runner) unsetElem(name, sub string) {
 		if expr == nil {
 			return // an empty subscript like `unset 'a[]'` is a no-op
 		}
-		k, _ := r.arithm(expr)
+		k, ok := r.arithm(expr)
+		if !ok {
+			r.exit.code = 1
+			return
+		}
 		if k < 0 {
 			// Negative indices count from one past the maximum index.
 			if k += internal.IndexedMax(vr.List, vr.Indexes) + 1; k < 0 {
@@ -512,7 +521,12 @@ func (r *Runner) assignVal(name string, prev expand.Variable, as *syntax.Assign,
 	for _, elem := range elems {
 		if elem.Index != nil {
 			// Index resets our index with a literal value.
-			k, _ := r.arithm(elem.Index)
+			k, ok := r.arithm(elem.Index)
+			if !ok {
+				// Like Bash, stop here, keeping the elements so far.
+				r.exit.code = 1
+				break
+			}
 			if k < 0 {
 				// Negative indices count from one past the maximum index.
 				if k += internal.IndexedMax(list, indexes) + 1; k < 0 {
